@@ -978,7 +978,7 @@ class Executor:
         a = self.ev(node.left, st)
         b = self.ev(node.right, st)
         r = self.binop(st, node.op, a, b, node)
-        if isinstance(node.op, ast.Mult) and self.contract.options.get('check_int_products') and self.cur_fn.srcfile.is_cython and is_int(r):
+        if isinstance(node.op, ast.Mult) and (self.contract.options.get('check_int_products') or os.environ.get('PYVC_ALL_INT_PRODUCTS')) and self.cur_fn.srcfile.is_cython and is_int(r):
             # C evaluates a product in the type of its (converted) operands, not in the type of the variable it is stored to: a product of
             # two 32-bit operands wraps at 2^32 before the store.  (Opt-in per contract; everywhere else C integers are mathematical.)
             t = self.c_int_type(node, st)
